@@ -122,13 +122,10 @@ namespace nmtools::index
             auto normalize_roll_index = [](nm_index_t index, const auto axis) -> nm_index_t
             #endif
             {
-                if (index < 0) {
-                    return axis + index;
-                } else if ((nm_index_t)index >= (nm_index_t)axis) {
-                    return index - axis;
-                } else {
-                    return index;
-                }
+                // NOTE: shift may be larger than the extent (in any direction), wrap with modulo
+                auto n = (nm_index_t)axis;
+                auto r = (nm_index_t)(index % n);
+                return (r < 0) ? (nm_index_t)(r + n) : r;
             };
 
             if constexpr (is_none_v<axis_t>) {
@@ -154,7 +151,8 @@ namespace nmtools::index
                 for (size_t i=0; i<len(axis); i++) {
                     auto axis_i  = at(axis,i);
                     auto shape_i = at(shape,axis_i);
-                    auto index   = nm_index_t(at(indices,axis_i)) - at(m_shift,i);
+                    // NOTE: read from result (initialized from indices) to accumulate the shifts of a repeated axis, following numpy
+                    auto index   = nm_index_t(at(result,axis_i)) - at(m_shift,i);
                     at(result,axis_i) = normalize_roll_index(index,shape_i);
                 }
             }
